@@ -3,6 +3,9 @@ import Sekai.Driver.Perm
 import Sekai.Driver.Gov
 import Sekai.Driver.Mint
 import Sekai.Driver.Stake
+import Sekai.Driver.Layer2
+import Sekai.Driver.Custody
+import Sekai.Driver.Basket
 /-! `sekai-model`: the model side of the correspondence check. One op per input line
 (`<domain> <op> <args…>`), one canonical observation per output line. Core Lean only. -/
 open Sekai
@@ -12,6 +15,9 @@ structure World where
   perm : Driver.Perm.D := {}
   gov : Gov.St := {}
   stake : Driver.Stake.D := {}
+  l2 : Driver.Layer2.St := Driver.Layer2.init
+  custody : Driver.Custody.St := {}
+  basket : Driver.Basket.St := {}
 
 def dispatch (w : World) (line : String) : World × String :=
   let toks := (line.trimAscii.toString.splitOn " ").filter (· ≠ "")
@@ -21,6 +27,9 @@ def dispatch (w : World) (line : String) : World × String :=
   | "gov" :: rest => let (s, o) := Driver.Gov.step w.perm.s w.gov rest; ({ w with gov := s }, o)
   | "mint" :: rest => (w, Driver.Mint.step rest)
   | "stake" :: rest => let (s, o) := Driver.Stake.step w.stake rest; ({ w with stake := s }, o)
+  | "l2" :: rest => let (s, o) := Driver.Layer2.step w.l2 rest; ({ w with l2 := s }, o)
+  | "custody" :: rest => let (s, o) := Driver.Custody.step w.custody rest; ({ w with custody := s }, o)
+  | "basket" :: rest => let (s, o) := Driver.Basket.step w.basket rest; ({ w with basket := s }, o)
   | ["reset"] => ({}, "ok")
   | [] => (w, "")
   | _ => (w, "bad-op")
